@@ -27,7 +27,8 @@ func genC18(seed uint64, run int, tier string) Scenario {
 	sc.ReadSize = pick(r, 1, 4, 64, 8192)
 	sc.SearchDepth = 1000
 	sc.TimeoutOpsUS = sc.ReadDelayUS * 600
-	g := &sgen{r: r, nl: "\n", host: word(r, lower, 2, 6)}
+	// host name and answers are digits only: no trigger word can occur in a prompt or an echo
+	g := &sgen{r: r, nl: "\n", host: "zz" + word(r, digits, 1, 4)}
 	sc.Dev.NL = "\n"
 	sc.Dev.Seed = r.Uint64()
 	sc.Net = genNet(r, rd, kernel.Stream(rs, "netseed").Uint64())
@@ -61,7 +62,7 @@ func genC18(seed uint64, run int, tier string) Scenario {
 		m := &peer.Mode{Name: fmt.Sprintf("s:%d", i), Prompt: pick(r, "", "? ", "[y/n]: ")}
 		rep := &peer.Reply{Out: text(), Next: m.Name}
 		if i == 0 {
-			cmd = g.cmd("run")
+			cmd = "zx " + word(r, digits, 1, 5) + "_0"
 			prev.Cmds[cmd] = rep
 		} else {
 			prev.Default = rep
@@ -108,7 +109,7 @@ func genC18(seed uint64, run int, tier string) Scenario {
 			cb.NextTimeUS = sc.ReadDelayUS * int64(pick(r, 100, 300))
 		}
 		if !cb.Complete {
-			cb.Write = g.cmd("ans")
+			cb.Write = fmt.Sprintf("zy %s_%d", word(r, digits, 1, 6), i)
 		}
 		op.Callbacks = append(op.Callbacks, cb)
 	}
